@@ -313,8 +313,8 @@ class Responder():
         """
         self.environ = environ
 
-        if self.chunkable is not None:
-            self.chunkable = chunkable
+        if chunkable is not None:
+            self.chunkable = True if chunkable else False
 
         self.started = False
         self.headed = False
@@ -325,6 +325,7 @@ class Responder():
         self.headers = help.Hict()
         self.length = None
         self.size = 0
+        self.evented = False
 
 
     def build(self):
@@ -783,8 +784,8 @@ class Server():
                                  requestant.body)
                     # create or restart wsgi app responder here
                     environ = self.buildEnviron(requestant)
+                    chunkable = True if requestant.version >= (1, 1) else False
                     if ca not in self.reps:
-                        chunkable = True if requestant.version >= (1, 1) else False
                         responder = Responder(incomer=requestant.remoter,
                                                   app=self.app,
                                                   environ=environ,
@@ -792,7 +793,7 @@ class Server():
                         self.reps[ca] = responder
                     else:  # reuse
                         responder = self.reps[ca]
-                        responder.reset(environ=environ)
+                        responder.reset(environ=environ, chunkable=chunkable)
 
 
     def serviceReps(self):
@@ -809,7 +810,8 @@ class Server():
 
             if responder.ended:
                 requestant = self.reqs[ca]
-                if requestant.persisted:
+                framed = responder.chunked or responder.length is not None
+                if requestant.persisted and framed:  # unframed response ends at close
                     if requestant.parser is None:  # reuse
                         requestant.makeParser()  # resets requestant parser
                 else:  # not persistent so close and remove requestant and responder
